@@ -984,9 +984,12 @@ struct PairDriver : DriverBase<PairDriver<A, B>> {
         ctx.log.kv("v1", v1);
         ctx.log.kv("b", b);
         if (op == "recreate") {
-            int form = static_cast<int>(st.k[0] % 7);
+            int form = static_cast<int>(st.k[0] % 8);
             if ((form == 3 || form == 4) && (a == b || obj[b] == nullptr || unspec[b])) {
                 form = 0;
+            }
+            if (form == 7 && !(etl::is_copy_constructible_v<B> && is_tracked_v<B>)) {
+                form = 6;
             }
             if (form == 3 && !copyable) {
                 form = 4;
@@ -1020,6 +1023,18 @@ struct PairDriver : DriverBase<PairDriver<A, B>> {
                 case 4: made = new (mem) P(static_cast<P&&>(*obj[b])); break;
                 case 5: made = new (mem) P(static_cast<etl::pair<int, int> const&>(conv)); break; // converting copy
                 case 6: made = new (mem) P(static_cast<etl::pair<int, int>&&>(conv)); break;      // converting move
+                case 7:
+                    // converting move from a pair whose second element is an lvalue reference: the referent must be
+                    // copied, not moved from (each element keeps its value category)
+                    if constexpr (etl::is_copy_constructible_v<B> && is_tracked_v<B>) {
+                        etl::pair<int, B&> src(v0, tb);
+                        made = new (mem) P(static_cast<etl::pair<int, B&>&&>(src));
+                        if (tb.v != v1) {
+                            LibPause pause;
+                            ctx.violation("C20", "diff:pair:reference-element-moved-from", "constructing from pair<U1, T&>&& moved from the referent instead of copying it");
+                        }
+                    }
+                    break;
                 default: made = new (mem) P(); break;
                 }
             });
@@ -1033,7 +1048,8 @@ struct PairDriver : DriverBase<PairDriver<A, B>> {
             case 1:
             case 2:
             case 5:
-            case 6: model[a] = M(v0, v1); break;
+            case 6:
+            case 7: model[a] = M(v0, v1); break;
             case 3: model[a] = model[b]; break;
             case 4:
                 model[a]  = model[b];
